@@ -146,21 +146,37 @@ func compareRPMVersionString(a, b string) int {
 			j++
 		}
 
+		// Tilde (~) sorts before anything, including the end of the string.
+		// It is looked at wherever a segment could start, so that tilde
+		// chains (1.0~~) and a tilde after letters (1.0a~rc1) work too.
+		aTilde := i < len(a) && a[i] == '~'
+		bTilde := j < len(b) && b[j] == '~'
+		if aTilde || bTilde {
+			if !aTilde {
+				return 1
+			}
+			if !bTilde {
+				return -1
+			}
+			i++
+			j++
+			continue
+		}
+
 		// Extract non-digit segments
 		iStart := i
-		for i < len(a) && !unicode.IsDigit(rune(a[i])) && !isSeparator(rune(a[i])) {
+		for i < len(a) && !unicode.IsDigit(rune(a[i])) && !isSeparator(rune(a[i])) && a[i] != '~' {
 			i++
 		}
 		aNonDigit := a[iStart:i]
 
 		jStart := j
-		for j < len(b) && !unicode.IsDigit(rune(b[j])) && !isSeparator(rune(b[j])) {
+		for j < len(b) && !unicode.IsDigit(rune(b[j])) && !isSeparator(rune(b[j])) && b[j] != '~' {
 			j++
 		}
 		bNonDigit := b[jStart:j]
 
 		// Compare non-digit segments lexicographically
-		// Special case: tilde (~) sorts before anything (including empty string)
 		nonDigitCmp := compareRPMNonDigits(aNonDigit, bNonDigit)
 		if nonDigitCmp != 0 {
 			return nonDigitCmp
